@@ -99,3 +99,60 @@ pub fn io_fail_multi(_args: &[String]) -> String {
     }
     "{\"found\": false}".to_string()
 }
+
+/// C18: with a terminal that fails from its first operation on, the io::Result-returning calls of MultiProgress
+/// report an error (also in the history where a dropped bar is reaped by that very draw), and the getters of
+/// every bar are what they are on a working terminal.
+pub fn io_fail_state(_args: &[String]) -> String {
+    std::panic::set_hook(Box::new(|_| {}));
+    // (a) errors are reported
+    for history in 0..3 {
+        let t = Failing { budget: Arc::new(AtomicUsize::new(1_000_000)) };
+        let budget = t.budget.clone();
+        let mp = MultiProgress::with_draw_target(ProgressDrawTarget::term_like(Box::new(t)));
+        let a = mp.add(ProgressBar::new(10));
+        let b = mp.add(ProgressBar::new(10));
+        a.tick();
+        b.tick();
+        let mut hist = vec!["MultiProgress with bars a, b".to_string()];
+        match history {
+            1 => { b.finish(); drop(b); a.finish(); drop(a); hist.push("b.finish(); drop(b); a.finish(); drop(a)".into()); }
+            2 => { a.finish(); hist.push("a.finish()".into()); }
+            _ => {}
+        }
+        budget.store(0, Ordering::SeqCst);
+        hist.push("terminal starts failing".into());
+        for (name, r) in [("mp.println", mp.println("x").is_err()), ("mp.clear", mp.clear().is_err())] {
+            if !r {
+                let h: Vec<&str> = hist.iter().map(String::as_str).collect();
+                return format!("{{\"found\": true, \"clause\": \"C18 explicit io::Result-returning calls report the terminal error\", \"input\": {{\"history\": {}, \"call\": \"{}\", \"returned\": \"Ok(())\"}}, \"rerun\": \"replay io_fail_state\"}}", crate::jlist(&h), name);
+            }
+        }
+    }
+    // (b) logical state is what it is without the failure
+    let ops: Vec<(&str, Box<dyn Fn(&ProgressBar)>)> = vec![
+        ("inc(2)", Box::new(|p| p.inc(2))), ("set_message(m)", Box::new(|p| p.set_message("m"))), ("set_length(20)", Box::new(|p| p.set_length(20))),
+        ("finish", Box::new(|p| p.finish())), ("finish_with_message(done)", Box::new(|p| p.finish_with_message("done"))), ("finish_and_clear", Box::new(|p| p.finish_and_clear())),
+        ("abandon", Box::new(|p| p.abandon())), ("reset", Box::new(|p| p.reset())), ("println(x)", Box::new(|p| p.println("x"))), ("set_prefix(p)", Box::new(|p| p.set_prefix("p"))),
+    ];
+    for i in 0..ops.len() {
+        for j in 0..ops.len() {
+            let good = ProgressBar::with_draw_target(Some(10), ProgressDrawTarget::term_like(Box::new(Failing { budget: Arc::new(AtomicUsize::new(1_000_000)) })));
+            let bad = ProgressBar::with_draw_target(Some(10), ProgressDrawTarget::term_like(Box::new(Failing { budget: Arc::new(AtomicUsize::new(0)) })));
+            for k in [i, j] {
+                (ops[k].1)(&good);
+                let r = catch_unwind(AssertUnwindSafe(|| (ops[k].1)(&bad)));
+                if r.is_err() {
+                    return format!("{{\"found\": true, \"clause\": \"C18 a call panicked under a failing terminal\", \"input\": {{\"call\": \"{}\"}}, \"rerun\": \"replay io_fail_state\"}}", ops[k].0);
+                }
+            }
+            let g = (good.position(), good.length(), good.message(), good.prefix(), good.is_finished());
+            let b = (bad.position(), bad.length(), bad.message(), bad.prefix(), bad.is_finished());
+            if g != b {
+                return format!("{{\"found\": true, \"clause\": \"C18 position, length, message, prefix and finished status are what they would be without the I/O failure\", \"input\": {{\"history\": [\"{}\", \"{}\"], \"working_terminal\": {}, \"failing_terminal\": {}}}, \"rerun\": \"replay io_fail_state\"}}",
+                    ops[i].0, ops[j].0, crate::js(&format!("{:?}", g)), crate::js(&format!("{:?}", b)));
+            }
+        }
+    }
+    "{\"found\": false}".to_string()
+}
